@@ -10,6 +10,7 @@ import (
 var (
 	sweepACache []Case
 	sweepBCache []Case
+	sweepECache []Case
 )
 
 func sweepAList() []Case {
@@ -26,6 +27,13 @@ func sweepBList() []Case {
 	return sweepBCache
 }
 
+func sweepEList() []Case {
+	if sweepECache == nil {
+		sweepECache = sweepE()
+	}
+	return sweepECache
+}
+
 func surfaceSize(p plan, s string) int {
 	switch s {
 	case "a":
@@ -36,6 +44,8 @@ func surfaceSize(p plan, s string) int {
 		return p.pick(2112, 52800)
 	case "d":
 		return p.pick(1512, 37800)
+	case "e":
+		return len(sweepEList()) + p.pick(480, 12000)
 	case "f":
 		return len(fixedCases())
 	}
@@ -49,6 +59,12 @@ func wireCase(p plan, s string, i int) Case {
 			cs = sw[i]
 		} else {
 			cs = randomA(p.Seed, i-len(sw))
+		}
+	} else if s == "e" {
+		if sw := sweepEList(); i < len(sw) {
+			cs = sw[i]
+		} else {
+			cs = randomE(p.Seed, i-len(sw))
 		}
 	} else {
 		if sw := sweepBList(); i < len(sw) {
@@ -81,7 +97,7 @@ type execSet struct {
 func (e *execSet) run(cs Case) bool {
 	e.last = cs
 	switch cs.S {
-	case "a", "b":
+	case "a", "b", "e":
 		if e.wire == nil {
 			e.wire = newWireExec(e.s)
 		}
@@ -128,7 +144,7 @@ func (e *execSet) reason() string {
 func (e *execSet) groupEnd(surface string) bool {
 	good := true
 	switch surface {
-	case "a", "b":
+	case "a", "b", "e":
 		if e.wire != nil {
 			good = e.wire.gm.check(e.s, surface, 3*time.Second, map[string]interface{}{"case": e.last})
 			debug.FreeOSMemory()
@@ -165,13 +181,13 @@ func runSurface(s Sink, p plan, restart func(next int, reason string)) {
 		return
 	}
 	gs := groupSize
-	if p.Surface == "a" || p.Surface == "b" {
+	if p.Surface == "a" || p.Surface == "b" || p.Surface == "e" {
 		gs = 40
 	}
 	for i := p.From; i < p.To; i++ {
 		var cs Case
 		switch p.Surface {
-		case "a", "b":
+		case "a", "b", "e":
 			cs = wireCase(p, p.Surface, i)
 		case "c":
 			if e.pm == nil {
